@@ -772,6 +772,9 @@ func SetConforms(typeCtx map[ast.Variable]ast.BaseTerm, left ast.BaseTerm, right
 	}
 	if leftTuple, ok := left.(ast.ApplyFn); ok && leftTuple.Function.Symbol == RelType.Symbol {
 		if rightTuple, ok := right.(ast.ApplyFn); ok && rightTuple.Function.Symbol == RelType.Symbol {
+			if len(leftTuple.Args) != len(rightTuple.Args) {
+				return false
+			}
 			for i, leftArg := range leftTuple.Args {
 				if !SetConforms(typeCtx, leftArg, rightTuple.Args[i]) {
 					return false
@@ -967,6 +970,9 @@ func TypeConforms(ctx map[ast.Variable]ast.BaseTerm, left ast.BaseTerm, right as
 	}
 	if leftTuple, ok := left.(ast.ApplyFn); ok && leftTuple.Function.Symbol == TupleType.Symbol {
 		if rightTuple, ok := right.(ast.ApplyFn); ok && rightTuple.Function.Symbol == TupleType.Symbol {
+			if len(leftTuple.Args) != len(rightTuple.Args) {
+				return false
+			}
 			for i, leftArg := range leftTuple.Args {
 				if !TypeConforms(ctx, leftArg, rightTuple.Args[i]) {
 					return false
